@@ -26,6 +26,36 @@ def classify(site):
     return None
 
 
+def frame_obligation(site, fs, prop, seen_keys):
+    """the frame obligation of one in-place construct: its target is a fresh local, or state the function owns by a sidecar modifies clause"""
+    t0 = time.time()
+    base = f"{prop}/frame/{site.module}:{site.func}:{site.text[:80]}"
+    seen_keys[base] = seen_keys.get(base, 0) + 1
+    key = base if seen_keys[base] == 1 else f"{base}#{seen_keys[base]}"
+    if site.kind == "mutator-call" and (site.target or "").startswith("cola"):
+        return None, None
+    fq = f"{site.module}.{site.func}"
+    ok, why = (False, site.kind)
+    if site.kind in ("augassign", "setitem", "update_array", "mutator-call"):
+        ok, why = fs.fresh(site.target)
+    owned = None
+    if ok:
+        status, detail = DISCHARGED, f"FRESH-LOCAL: {why}"
+    else:
+        reason = classify(site)
+        if reason is not None:
+            status, detail = DISCHARGED, f"OWNED-STATE (sidecar modifies clause): {reason}"
+            owned = f"{fq}: {reason}"
+        else:
+            status, detail = FAILED, f"in-place construct on a value the function does not own: {why}"
+    ob = Ob(key=key, fn=fq, clause=f"`{site.text[:90]}` writes only to owned state", engine="FRAME", status=status,
+            backend="intraprocedural freshness analysis of the live source", secs=time.time() - t0, detail=detail)
+    ob.smt = f"modifies({fq}) subseteq Fresh u Owned   [{site.kind} on {site.target}]"
+    if status == FAILED:
+        ob.witness = dict(engine="FRAME", module=site.module, func=site.func, text=site.text, lineno=site.lineno)
+    return ob, owned
+
+
 def run(chk):
     chk.level = "proof"
     from props import backend_conformance
@@ -40,32 +70,12 @@ def run(chk):
     owned_used = set()
     seen_keys = {}
     for site, fs in sites:
-        t0 = time.time()
-        base = f"C18/frame/{site.module}:{site.func}:{site.text[:80]}"
-        seen_keys[base] = seen_keys.get(base, 0) + 1
-        key = base if seen_keys[base] == 1 else f"{base}#{seen_keys[base]}"
-        if site.kind == "mutator-call" and (site.target or "").startswith("cola"):
+        ob, owned = frame_obligation(site, fs, "C18", seen_keys)
+        if ob is None:
             continue
-        fq = f"{site.module}.{site.func}"
-        chk.under_contract(fq)
-        ok, why = (False, site.kind)
-        if site.kind in ("augassign", "setitem", "update_array", "mutator-call"):
-            ok, why = fs.fresh(site.target)
-        status, detail = None, None
-        if ok:
-            status, detail = DISCHARGED, f"FRESH-LOCAL: {why}"
-        else:
-            reason = classify(site)
-            if reason is not None:
-                status, detail = DISCHARGED, f"OWNED-STATE (sidecar modifies clause): {reason}"
-                owned_used.add(f"{fq}: {reason}")
-            else:
-                status, detail = FAILED, f"in-place construct on a value the function does not own: {why}"
-        ob = Ob(key=key, fn=fq, clause=f"`{site.text[:90]}` writes only to owned state", engine="FRAME", status=status,
-                backend="intraprocedural freshness analysis of the live source", secs=time.time() - t0, detail=detail)
-        ob.smt = f"modifies({fq}) subseteq Fresh u Owned   [{site.kind} on {site.target}]"
-        if status == FAILED:
-            ob.witness = dict(engine="FRAME", module=site.module, func=site.func, text=site.text, lineno=site.lineno)
+        chk.under_contract(ob.fn)
+        if owned:
+            owned_used.add(owned)
         chk.add(ob)
     for o in sorted(owned_used):
         chk.assume("modifies clause (assumed, not proved): " + o)
